@@ -14,6 +14,8 @@ pub const CONFIGS: &[&str] = &[
     "strict.attrs=(a:href)", "strict.rmattrs(a:target)", "strict.schemes+(a.href:tel)", "strict.schemes=(a.href:tel)",
     "strict.deny(a.href:http)", "strict.classes+(code:x*)", "strict.rmclasses(code:language-evil*)", "strict.depth2", "none.depth3",
     "strict.replace(b->strong)", "none.allow=(b,a).attrs=(a:href).schemes=(a.href:https)", "strict.replaceattrs(a:title->data-x)",
+    "compat.schemes=(a.href:tel)", "compat.schemes+(a.href:tel)", "compat.deny(a.href:matrix)", "compat.attrs=(a:href)", "compat.allow=(b,a)",
+    "compat.classes=(code:x*)",
 ];
 
 pub fn config(name: &str) -> SanitizerConfig {
@@ -51,6 +53,15 @@ pub fn config(name: &str) -> SanitizerConfig {
             .allow_schemes([ElementAttributesSchemes { element: "a", attr_schemes: &[PropertiesNames { parent: "href", properties: &["https"] }] }], Override),
         "strict.replaceattrs(a:title->data-x)" => SanitizerConfig::strict().replace_attributes(
             [ElementAttributesReplacement { element: "a", replacements: &[NameReplacement { old: "title", new: "data-x" }] }], Add),
+        "compat.schemes=(a.href:tel)" => SanitizerConfig::compat().allow_schemes(
+            [ElementAttributesSchemes { element: "a", attr_schemes: &[PropertiesNames { parent: "href", properties: &["tel"] }] }], Override),
+        "compat.schemes+(a.href:tel)" => SanitizerConfig::compat().allow_schemes(
+            [ElementAttributesSchemes { element: "a", attr_schemes: &[PropertiesNames { parent: "href", properties: &["tel"] }] }], Add),
+        "compat.deny(a.href:matrix)" => SanitizerConfig::compat().deny_schemes(
+            [ElementAttributesSchemes { element: "a", attr_schemes: &[PropertiesNames { parent: "href", properties: &["matrix"] }] }]),
+        "compat.attrs=(a:href)" => SanitizerConfig::compat().allow_attributes([PropertiesNames { parent: "a", properties: &["href"] }], Override),
+        "compat.allow=(b,a)" => SanitizerConfig::compat().allow_elements(["b", "a"], Override),
+        "compat.classes=(code:x*)" => SanitizerConfig::compat().allow_classes([PropertiesNames { parent: "code", properties: &["x*"] }], Override),
         _ => panic!("unknown config {name}"),
     }
 }
@@ -78,7 +89,9 @@ const ATTRS: &[&str] = &["href", "src", "class", "data-x", "alt", "target", "tit
                          "onclick", "start", "style", "zzz", "height", "id", "aaa"];
 const VALUES: &[&str] = &["http://x/", "https://x/", "javascript:alert(1)", "JAVASCRIPT:x", " javascript:x", "mxc://s/m", "matrix:u/a:b", "ftp://x", "mailto:a@b",
                           "magnet:?x", "tel:1", "/rel", "", "x", "language-rust", "language-rust evil", "evil", "language-evil1 language-c", "xy language-a",
-                          "1", "#fff", "data:text/html,x", "http:", "httpx://y", "java\tscript:x"];
+                          "1", "#fff", "data:text/html,x", "http:", "httpx://y", "java\tscript:x",
+                          // class lists separated by other white space than a space
+                          "language-rust\thljs", "language-a\nevil", "evil\x0clanguage-c", "language-x\revil  language-y", "xa\txb"];
 
 fn gen_node(rng: &mut rand::rngs::StdRng, depth: u32, out: &mut String) {
     match rng.gen_range(0..10) {
@@ -200,6 +213,18 @@ pub fn run(args: &[String]) {
         for c in CONFIGS {
             i += 1;
             out.put(&record(i, p, c, "probe"));
+        }
+    }
+    // cross product: the attributes whose values are interpreted (links, image sources, classes) with every value under every
+    // configuration, alone and with a neighbouring attribute sorting before / after them
+    for (el, at) in [("a", "href"), ("img", "src"), ("code", "class"), ("span", "class"), ("a", "class"), ("img", "href")] {
+        for (vi, v) in VALUES.iter().enumerate() {
+            for (ci, c) in CONFIGS.iter().enumerate() {
+                let extra = match (vi + ci) % 3 { 0 => "", 1 => " aaa=\"1\"", _ => " zzz=\"2\" alt=\"x\"" };
+                let doc = if el == "img" { format!("<{el}{extra} {at}=\"{v}\">") } else { format!("<{el}{extra} {at}=\"{v}\">t</{el}>") };
+                i += 1;
+                out.put(&record(i, &doc, c, "cross"));
+            }
         }
     }
     for k in 0..n {
